@@ -6,7 +6,7 @@ M="$1"; ID="$2"; TIER="${3:-quick}"
 export GOFLAGS=-mod=mod GOPROXY=off GOSUMDB=off GOTOOLCHAIN=local
 W=$(mktemp -d /dev/shm/verif-mut-XXXXXX)
 trap 'rm -rf "$W"' EXIT
-python3 /verif/tools/mkoverlay.py "$M/patch.diff" "$W/ov" >/dev/null || { echo "PATCH-FAILED"; exit 2; }
+python3 /verif/tools/mkoverlay.py "$M" "$W/ov" >/dev/null || { echo "PATCH-FAILED"; exit 2; }
 ( cd /repo && go build -overlay "$W/ov/overlay.json" ./... ) >/dev/null 2>"$W/build.err" || { echo "BUILD=fail"; cat "$W/build.err" | head -5; exit 2; }
 if ( cd /repo && go test -overlay "$W/ov/overlay.json" -vet=off -count=1 ./... ) >"$W/test.log" 2>&1; then echo "BASELINE=pass"; else echo "BASELINE=fail"; grep -E "^(--- FAIL|FAIL)" "$W/test.log" | head -5; fi
 mkdir -p "$W/out"
